@@ -12,7 +12,11 @@ RULE = (
     "sub-command's name omitted) with options after the path and an optional '--' tail; line kinds: valid, "
     "wrong token after a valid prefix, the name of an anonymous or disabled command after the path, undefined first token, partial path without arguments, tail after '--' that "
     "repeats command names; plus the alias-respelled variant of every line. Outcome compared with a 25-line "
-    "reference resolver; selection also observed through run() with recording handlers. Non-trivial: path depth "
+    "reference resolver; selection also observed through run() with recording handlers. In a quarter of the cases one "
+    "plain command is added to the running application after other lines were resolved; in a third the configuration "
+    "is written with the create_command / create_sub_command / add_aliases style; in every case the collections of "
+    "all / named / default (sub-)commands, their predicates, lookups by name and alias and the parent links of the "
+    "built application are compared with the tree. Non-trivial: path depth "
     ">= 2, an alias on the path, a default/anonymous child involved, or a wrong token after a valid prefix. "
     "Distinct by hash of (tree, tokens)."
 )
@@ -88,13 +92,23 @@ def check_line(ctx, case):
     tree, cfgk = case["tree"], case["config"]
     rec = Recorder()
     try:
-        app = gen_tree.build_app(tree, cfgk, rec.handler_for, late=case.get("late"))
+        app = gen_tree.build_app(tree, cfgk, rec.handler_for, late=case.get("late"), fluent=bool(case.get("fluent")))
     except Exception as e:
         raise AssertionError("generator built an illegal tree: %r %r" % (e, tree))
+    # the command collections of every level answer their queries as the configuration implies
+    try:
+        bad = gen_tree.structure_mismatches(app, tree, cfgk)
+    except Exception as e:
+        ctx.fail("line", "C03.structure", case, "structural queries answer", None, exc=e)
+        return
+    if bad:
+        ctx.fail("line", "C03.structure", case, bad[0][1], {"what": bad[0][0], "observed": bad[0][2]}, sig="structure")
+        return
     classes = ["c03:" + case["kind"]] + ["c03:" + c for c in case.get("classes", [])] + (["c03:late-added"] if case.get("late") else [])
     nt = case.get("depth", 0) >= 2 or "alias" in case.get("classes", []) or case.get("default_involved") \
         or case["kind"] in ("wrong-token", "unnameable")
-    ctx.case("line", {"tree": tree, "config": cfgk, "tokens": case["tokens"], "late": case.get("late")}, nt, classes)
+    ctx.case("line", {"tree": tree, "config": cfgk, "tokens": case["tokens"], "late": case.get("late"),
+                      "fluent": case.get("fluent")}, nt, classes + (["c03:fluent-config"] if case.get("fluent") else []))
     results = []
     wants = {}
     for label, tokens in [("line", case["tokens"])] + [(k, v) for k, v in sorted(case.get("variants", {}).items())]:
@@ -192,6 +206,8 @@ def line_case(draw, descriptions=False):
         # that lies on the path of this line
         on_path = [p for p in cands if case.get("intended") and p == list(case["intended"])[: len(p)]]
         case["late"] = draw(st.sampled_from(on_path or cands))
+    if draw(st.integers(0, 2)) == 0:
+        case["fluent"] = True  # the configuration is written with create_command / create_sub_command / add_aliases
     return case
 
 
